@@ -182,7 +182,7 @@ class Program:
             for i, v in enumerate(vs): self.VARIDX[(t, v)] = i
         self.constcache = {}; self.resolve_cache = {}
         self.operand_cache = {}; self.rvalue_cache = {}
-        self.by_method = {}; self.drop_impls = {}
+        self.by_method = {}; self.drop_impls = {}; self.impl_span = {}
         self._closure_index = None
         self._index_impls()
 
@@ -211,6 +211,7 @@ class Program:
                 if j >= len(lines): continue
                 ty = re.match(r'\s*(pub(\([^)]*\))? )?(struct|enum) (\w+)', lines[j]).group(4)
             if trait: trait = trait.split('::')[-1]
+            self.impl_span[re.search(r'<impl at [^>]*>', name).group(0)] = (trait, ty)
             self.by_method.setdefault((trait, ty, m.group(6)), f)
             if trait == 'Drop' and m.group(6) == 'drop': self.drop_impls[ty] = f
 
@@ -523,6 +524,22 @@ class Engine:
         if c in ('InvalidChunkSize',): return UNIT
         if re.match(r'^\{closure@', c): return FnV(c)
         key = c
+        pm = re.match(r'^(.*?)(?:::)?(\w+)::(promoted\[\d+\])$', c)
+        if pm and c not in self.consts:
+            # promoted constant of a method: the use site names the type/trait path, the definition names the impl span
+            tail = pm.group(2) + '::' + pm.group(3); pre = strip_generics(pm.group(1))
+            cs = [k for k in self.consts if k == tail or k.endswith('::' + tail)]
+            if len(cs) > 1:
+                def ok(k):
+                    sp = re.search(r'<impl at [^>]*>', k)
+                    if not sp: return pre == '' or k.startswith(pre)
+                    trait, ty = self.P.impl_span.get(sp.group(0), (None, None))
+                    tm = re.match(r'^<(?:&?(?:mut )?)?(?:\w+::)*(\w+)(?:<.*>)? as (?:\w+::)*(\w+)', pre)
+                    if tm: return tm.group(1) == ty and tm.group(2) == trait
+                    return trait is None and pre.split('::')[-1] == ty
+                cs = [k for k in cs if ok(k)]
+            if len(cs) == 1: key = cs[0]
+            else: raise Unsupported(f'promoted constant {c}: {len(cs)} candidate definitions')
         cands = [k for k in self.consts if key == k or key.endswith('::' + k) or k.endswith('::' + key)]
         if len(cands) >= 1:
             k = sorted(cands, key=len)[-1]
@@ -531,6 +548,7 @@ class Engine:
                 if isinstance(body, Func): self.constcache[k] = self.call_func(body, [])
                 else: self.constcache[k] = self.const(body[6:] if body.startswith('const ') else body)
             return clone(self.constcache[k])
+        if 'promoted[' in c: raise Unsupported('promoted constant not found: ' + c)
         if re.match(r'^[\w:<>\' ,\[\];&{}@/.()\-]+$', c) and ('fn' in c or '::' in c or c.islower()):
             return FnV(c)   # zero-sized fn item
         raise Unsupported('const ' + c)
@@ -749,6 +767,8 @@ class Engine:
             if op == 'BitAnd' and b.v == 0: return IntV(a.w, 0)
             if op == 'BitAnd' and a.alloc != 'buf' and b.v < 16: return IntV(a.w, 0)   # non-buffer allocations are aligned for their type
             if op in ('Add', 'AddUnchecked'): return AddrV(a.w, a.alloc, a.root, a.off + b.v)
+            if op == 'AddWithOverflow': return [AddrV(a.w, a.alloc, a.root, a.off + b.v), BoolV(False)]   # allocations do not wrap around the address space
+            if op == 'SubWithOverflow': return [AddrV(a.w, a.alloc, a.root, a.off - b.v), BoolV(False)]
             if op in ('Sub', 'SubUnchecked'): return AddrV(a.w, a.alloc, a.root, a.off - b.v)
         raise Unsupported(f'address-dependent computation: {op}({a}, {b}) -- result would depend on where the buffer is placed')
 
